@@ -6,9 +6,9 @@ import derived_common as dc
 
 PID = "C05"
 MODEL_TARGETS = ["Proofs/Eval.vo", "Amount/F64.vo", "Amount/Dec.vo", "Gen/Catalogue.vo"]
-PROOF_TARGETS = ["Props/C05.vo", "Pinned/C05.vo", "Props/Accuracy.vo", "Pinned/Accuracy.vo"]
-PROPS = ["Props/C05.v", "Props/Accuracy.v"]
-COQCHK = ["QV.Props.C05", "QV.Props.Accuracy"]
+PROOF_TARGETS = ["Props/C05.vo", "Pinned/C05.vo", "Props/Accuracy.vo", "Pinned/Accuracy.vo", "Props/AccuracyDec.vo", "Pinned/AccuracyDec.vo"]
+PROPS = ["Props/C05.v", "Props/Accuracy.v", "Props/AccuracyDec.v"]
+COQCHK = ["QV.Props.C05", "QV.Props.Accuracy", "QV.Props.AccuracyDec"]
 TRUSTED_BASE = [
     "Coq 8.16.1 kernel (coqc; vm_compute for the facts about every derivation); coqchk in the thorough tier",
     "translator rs2j+j2v: HasRefUnit::_fit and unit_from_scale translated from src/lib.rs (let mut it / it.next() by SSA renaming, filter/last as list functions); the Mul/Div templates translated from the repository's own codegen() output; every generated impl checked to be an instance of its template",
@@ -18,7 +18,7 @@ TRUSTED_BASE = [
 LEVEL = ("Coq theorems (Props/C05.v), generic in amount type and instances: every generated product/quotient is one normal form; if a unit of the result has the combined scale (amount-type equality) the FIRST such unit "
          "is used with exactly op(a,b) as amount; otherwise _fit: the exact specification of _fit for every amount (last eligible unit - SI-prefixed ones iff the reference unit is SI-prefixed - whose scale exceeds the "
          "first eligible unit's and is <= the magnitude, boundary included, else the first eligible unit; NaN/zero/negative fall to the first), totality (reference unit eligible) and membership of the result unit in "
-         "the registry. For every derivation and operator instance of the tree, in both amount types, reference-unit operands give the reference unit (computed by the kernel). The amounts on both paths are also bounded in magnitude in the binary configuration (ACC_C04_natural_unit / ACC_C04_fit_path, Props/Accuracy.v).")
+         "the registry. For every derivation and operator instance of the tree, in both amount types, reference-unit operands give the reference unit (computed by the kernel). The amounts on both paths are also bounded in magnitude in the binary configuration (ACC_C04_natural_unit / ACC_C04_fit_path, Props/Accuracy.v) and in the decimal configuration (DEC_C04_natural_unit / DEC_C04_fit_path, Props/AccuracyDec.v).")
 LEVEL_NOTE = "Trusted: Coq kernel, translator rs2j+j2v (incl. the iterator-to-list reading of filter/next/last), Macro/Inst.v + Macro/Impls.v (cross-checked), Flocq/fpdec model in computed facts; stdlib real-number axioms via Flocq."
 ASSUMPTIONS = [
     "Rust iterator adaptors filter / next / last / find behave as the list functions they are translated to (validated by the boundary sweep on every result type)",
